@@ -158,7 +158,8 @@ impl ExternalDevice for TimerDevice {
         match self.time {
             0 => {
                 self.reset_remaining();
-                None
+                // A sampled interval of 0 means no polls pass between interrupts: fire on this poll.
+                (self.time == 0).then(|| super::Interrupt::vectored(self.vect, self.priority))
             },
             1 => {
                 self.time = 0;
